@@ -200,10 +200,11 @@ func genFlags(t *sim.Tape) int {
 
 // genConcOp draws one call. uniq makes written data attributable to its call.
 func genConcOp(t *sim.Tape, cfg *concCfg, adversarial bool, uniq string) fsx.Op {
-	weights := []int{5, 5, 6, 3, 4, 3, 2, 2, 2, 2, 2, 2, 1, 1, 1, 1, 1, 1, 1, 1}
+	weights := []int{5, 5, 6, 3, 4, 3, 2, 2, 2, 2, 2, 2, 1, 1, 1, 1, 1, 1, 1, 1, 2, 1}
 	kinds := []string{
 		"Mkdir", "Remove", "Rename", "Link", "OpenFile", "FWrite", "FClose", "Truncate", "Stat", "Lstat",
 		"FRead", "FReadDir", "MkdirAll", "RemoveAll", "CreateTemp", "MkdirTemp", "Chmod", "Symlink", "Readlink", "FTruncate",
+		"FWriteAt", "FReadAt",
 	}
 
 	if cfg.FS == "orefafs" {
@@ -246,6 +247,14 @@ func genConcOp(t *sim.Tape, cfg *concCfg, adversarial bool, uniq string) fsx.Op 
 	case "FTruncate":
 		o.H = t.Int(2)
 		o.Size = int64(t.Int(4))
+	case "FWriteAt":
+		o.H = t.Int(2)
+		o.Data = uniq
+		o.Size = int64(t.Int(12))
+	case "FReadAt":
+		o.H = t.Int(2)
+		o.N = 6
+		o.Size = int64(t.Int(8))
 	case "Truncate":
 		o.P = pickPath(t, cfg, adversarial)
 		o.Size = int64(t.Int(6))
